@@ -154,12 +154,18 @@ PROPS = {
             "write; every `graph -= instantiated delete template` happens while no insertion has happened yet, i.e. the "
             "deletions of ALL solutions precede every insertion (proved: ghost flags `inserted` / `evaluated`, loop "
             "invariants attached to the loops of the real source by what they write)",
+            "addressing: _defaultGraph returns ctx.graph when it is a plain Graph and the dataset's default graph otherwise "
+            "(never the union); _graphOrDefault maps DEFAULT to that graph and a name to get_context(name); INSERT DATA only "
+            "performs `+=`, DELETE DATA only `-=`, each on the real default graph and on get_context(g) for the request's "
+            "graph names and nowhere else; ADD / COPY / MOVE are no-ops when source and target are one graph, otherwise "
+            "only the target receives triples and exactly {} / {target} / {target, source} are cleared (proved, ghost sets "
+            "of written graph objects)",
         ],
         "clauses_not_decided": [
             "which triples the instantiated templates contain (_fillTemplate: unbound / illegal terms skipped, fresh blank "
-            "nodes per solution), which graph a template addresses (WITH, GRAPH ?g, default graph vs union), INSERT/DELETE "
-            "DATA, DELETE WHERE, CLEAR, DROP, ADD, MOVE, COPY and the order of operations in a request: bounded stand-in "
-            "only (reference implementation of the Update semantics on a dict model of the dataset)",
+            "nodes per solution), which graph a template of DELETE/INSERT addresses (WITH, GRAPH ?g), DELETE WHERE, CLEAR, "
+            "DROP (_graphAll), the set effect of the operations on triples and the order of operations in a request: "
+            "bounded stand-in only (reference implementation of the Update semantics on a dict model of the dataset)",
             "USING / USING NAMED / LOAD (external documents)",
         ],
         "explanation": "The ordering clause is a property of one function's control flow and is proved with ghost state; "
@@ -275,8 +281,9 @@ PROPS = {
         "design_ref": "6.5",
         "technique": TECH,
         "clauses_decided": [
-            "N-Triples / N-Quads documents: a blank node label repeated inside one document denotes one node and different "
-            "labels different nodes (W3CNTriplesParser.nodeid against the label-map invariant - proved; shared with C12)",
+            "N-Triples / N-Quads, Turtle / TriG and JSON-LD documents: a blank node label repeated inside one document "
+            "denotes one node and different labels different nodes (W3CNTriplesParser.nodeid, SinkParser.anonymousNode, "
+            "jsonld Parser._bnode, TriXHandler.get_bnode against the label-map invariant - proved; shared with C12)",
         ],
         "clauses_not_decided": [
             "that every legal spelling (quoting styles, escapes, prefixes, relative IRIs, abbreviations, comments) parses to "
@@ -498,13 +505,14 @@ PROPS = {
             "remove_graph / remove_context / update / rollback / destroy reaches the sink graph, its dataset or anything "
             "on its store (frame obligations over the real call graph); with C01's add contract (Q' is a superset of Q) "
             "existing triples in any graph are never removed or altered",
-            "label scoping, N-Triples/N-Quads (W3CNTriplesParser.nodeid): a label already in the parse's label map gives "
-            "its node, a new label gives a node that did not exist before (BNode() freshness) and is recorded; the map "
-            "stays injective - one label one node, different labels different nodes, never an existing node (proved)",
+            "label scoping, N-Triples/N-Quads (W3CNTriplesParser.nodeid), Turtle/N3/TriG (SinkParser.anonymousNode), TriX "
+            "(TriXHandler.get_bnode) and JSON-LD (Parser._bnode): a label already in the parse's label map gives its node, "
+            "a new label gives a node that did not exist before (BNode() freshness) and is recorded; the map stays "
+            "injective - one label one node, different labels different nodes, never an existing node (proved)",
         ],
         "clauses_not_decided": [
-            "label scoping for the other syntaxes (Turtle/N3 anonymousNode, RDF/XML handler.bnode, TriX get_bnode, JSON-LD "
-            "_bnode, HexTuples) and the reset of the map per parse call: bounded stand-in only (two documents / same "
+            "label scoping for RDF/XML (inline in node_element_start) and HexTuples (known finding: labels kept verbatim), "
+            "and the reset of the map per parse call for every syntax: bounded stand-in only (two documents / same "
             "document twice, every syntax)",
         ],
         "explanation": "Same effect checker as C13 with the removing/overwriting operations as the forbidden set.",
